@@ -2,6 +2,7 @@ package vc
 
 import (
 	"fmt"
+	"regexp"
 	"go/types"
 	"math/big"
 	"sort"
@@ -27,6 +28,9 @@ type Universe struct {
 	sizes     types.Sizes
 	extraDecl []string
 	extraSeen map[string]bool
+	preDeclared map[string]bool // constants declared by the spec prelude
+	Reveal      map[string]string // opaque spec function -> definitional axiom text
+	RelaxDef    map[string]string // declare-fun line -> define-fun line (quantifier-free mode)
 }
 
 // StructInfo describes a Go struct type lowered to an SMT datatype.
@@ -49,7 +53,7 @@ func NewUniverse() *Universe {
 	return &Universe{
 		structs: map[string]*StructInfo{}, compSort: map[string]string{}, compElem: map[string]types.Type{}, strLits: map[string]string{},
 		typeIDs: map[string]int{}, fnIDs: map[string]int{}, sizes: types.SizesFor("gc", "amd64"),
-		extraSeen: map[string]bool{},
+		extraSeen: map[string]bool{}, preDeclared: map[string]bool{}, Reveal: map[string]string{}, RelaxDef: map[string]string{},
 	}
 }
 
@@ -88,8 +92,16 @@ func shortType(t types.Type) string {
 // typeKey is the canonical key of a Go type used in component names.
 func typeKey(t types.Type) string {
 	t = types.Unalias(t)
-	return shortType(t)
+	return byteRe.ReplaceAllStringFunc(shortType(t), func(m string) string {
+		if m == "byte" {
+			return "uint8"
+		}
+		return "int32"
+	})
 }
+
+// byte and rune are aliases of uint8 and int32 but print differently.
+var byteRe = regexp.MustCompile(`\b(byte|rune)\b`)
 
 // TypeID returns a small positive integer identifying a dynamic type.
 func (u *Universe) TypeID(t types.Type) int {
